@@ -40,15 +40,16 @@ type Fault struct {
 
 // Workload is everything a run needs except the schedule.
 type Workload struct {
-	Seed     uint64      `json:"seed"`
-	Family   string      `json:"family"` // plain | divergent | conflict
-	Template string      `json:"template"`
-	Files    []*FileSpec `json:"files"`
-	MaxDepth int         `json:"max_depth"`
-	RootArg  string      `json:"root_arg,omitempty"` // how the root module is spelled when handed to Parse ("" = its plain path)
-	Faults   []Fault     `json:"faults,omitempty"`
-	Buggify  []string    `json:"buggify,omitempty"`
-	RemoteV  string      `json:"remote_version,omitempty"`
+	Seed       uint64      `json:"seed"`
+	Family     string      `json:"family"` // plain | divergent | conflict
+	Template   string      `json:"template"`
+	Files      []*FileSpec `json:"files"`
+	MaxDepth   int         `json:"max_depth"`
+	NoVerCheck bool        `json:"no_different_version_check,omitempty"` // --no-different-version-check
+	RootArg    string      `json:"root_arg,omitempty"`                   // how the root module is spelled when handed to Parse ("" = its plain path)
+	Faults     []Fault     `json:"faults,omitempty"`
+	Buggify    []string    `json:"buggify,omitempty"`
+	RemoteV    string      `json:"remote_version,omitempty"`
 }
 
 const repoPrefix = "//github.com/org/repo"
@@ -264,6 +265,10 @@ func Gen(seed uint64, faulty bool) *Workload {
 
 	for _, fs := range w.Files {
 		fs.Text = render(w, fs)
+	}
+	// the rarely used switch that turns the import-definition check off
+	if r.Chance(0.12) {
+		w.NoVerCheck = true
 	}
 	// the module argument itself may be spelled rooted or with a dot segment
 	switch r.Intn(8) {
